@@ -3,7 +3,7 @@
 (* ("codec" events, DESIGN.md Appendix B) against the model, one event per      *)
 (* step.  Every event is judged for every property it bears on; non-ok verdicts *)
 (* are printed and the run continues with the next event.                       *)
-EXTENDS KnownDeviations, PlencDescriptor, Json
+EXTENDS KnownDeviations, PlencDescriptor, PlencJSONModel, Json
 
 CONSTANTS TraceFile, EnvFile
 EnvDef == JsonDeserialize(EnvFile)
@@ -13,7 +13,7 @@ VARIABLES l, bad
 vars == <<l, bad>>
 
 Crashed(e) == e.out.kind \in {"fatal", "timeout", "oom"}
-McCfg(e) == [protoTime |-> e.cfg.protoTime, protoArrays |-> e.cfg.protoArrays, nullProto |-> FALSE]
+McCfg(e) == [protoTime |-> e.cfg.protoTime, protoArrays |-> e.cfg.protoArrays, nullProto |-> FALSE, flatUnsigned |-> FALSE, timeAsZigZag |-> FALSE]
 
 \* ---- C01: value round trip ----
 JudgeC01(e, cfg, T) ==
@@ -166,11 +166,40 @@ JudgeC12(e, cfg, T) ==
                  IF "F19" \in OpenFindings /\ EncMatches(cfg, T, e.v, e.out.bytes) THEN "known:F19" ELSE "null-time-not-proto"
        ELSE "ok"
 
+\* ---- C13: descriptor-driven JSON equals the typed decode, for the three ways of obtaining the descriptor ----
+RECURSIVE JsonFrom(_, _, _, _, _)
+JsonFrom(e, cfg, T, js, i) ==
+  IF i > Len(js) THEN "ok"
+  ELSE LET r == js[i]
+           res == IF r.panic THEN "panic:" \o r.where
+                  ELSE IF r.err # "" THEN "walk-error"
+                  ELSE IF ~r.valid THEN "invalid-json"
+                  ELSE IF r.perr # "" THEN "unparsable"
+                  ELSE IF ~(e.out.jsonable.finite /\ e.out.jsonable.times /\ e.out.jsonable.utf8) THEN "ok"   \* outside the statement's value domain: validity only
+                  ELSE LET nv == e.v IN       \* JMatch normalises slices itself; omission is decided on the value as marshalled
+                       IF Omit(cfg, T, nv) /\ Resolve(T).k \notin {"struct"} THEN "ok"      \* nothing was encoded: an empty walk
+                       ELSE LET w == JWhere(cfg, T, nv, r.tree) IN
+                            IF w = "" THEN "ok"
+                            ELSE IF "F20" \in OpenFindings /\ JMatch([cfg EXCEPT !.flatUnsigned = TRUE], T, nv, r.tree) THEN "known:F20"
+                            ELSE IF "F21" \in OpenFindings /\ JMatch([cfg EXCEPT !.timeAsZigZag = TRUE, !.flatUnsigned = TRUE], T, nv, r.tree) THEN "known:F21"
+                            ELSE "content:" \o w
+           \* finding F18: the walker cannot read the repeated-field form (its descriptor is that of the counted form)
+           res2 == IF res \notin {"ok", "known:F20", "known:F21"} /\ "F18" \in OpenFindings /\ AnySub(T, LAMBDA X : IsRepeated(cfg, X), 8)
+                      /\ ~r.panic /\ (r.err # "" \/ (r.valid /\ r.perr = ""))
+                   THEN "known:F18" ELSE res IN
+       IF res2 \notin {"ok"} /\ ~(SubSeq(res2, 1, 6) = "known:" /\ i < Len(js)) THEN (IF SubSeq(res2, 1, 6) = "known:" THEN res2 ELSE res2 \o "-via-" \o r.via)
+       ELSE JsonFrom(e, cfg, T, js, i + 1)
+JudgeC13(e, cfg, T) ==
+  IF Crashed(e) \/ e.out.panic \/ e.out.merr # "" THEN "ok"
+  ELSE IF ~e.out.jsonable.finite THEN "ok"             \* NaN / infinities have no JSON form
+  ELSE JsonFrom(e, cfg, T, e.out.json, 1)
+
 Judge(e) ==
   LET cfg == McCfg(e)  T == Bake(e.T, "") IN
   << <<"C01", JudgeC01(e, cfg, T)>>, <<"C02", JudgeC02(e, cfg, T)>>,
      <<"C05", JudgeC05(e, cfg, T)>>, <<"C11", JudgeC11(e, cfg, T)>>,
-     <<"C09", JudgeC09(e, cfg, T)>>, <<"C14", JudgeC14(e, cfg, T)>>, <<"C12", JudgeC12(e, cfg, T)>> >>
+     <<"C09", JudgeC09(e, cfg, T)>>, <<"C14", JudgeC14(e, cfg, T)>>, <<"C12", JudgeC12(e, cfg, T)>>,
+     <<"C13", JudgeC13(e, cfg, T)>> >>
 
 NonOk(vs) == {i \in 1..Len(vs) : vs[i][2] # "ok"}
 
